@@ -90,6 +90,14 @@ DEFINE(unsigned, m32, _Atomic unsigned)
 #undef OBJ
 #define OBJ (*p)
 
+// floating variant: compound assignment and ++ on _Atomic double (the values stay exactly representable integers)
+void w_addassign_d64(_Atomic double *p, long n, unsigned long *log) { for (long i = 0; i < n; i++) log[i] = (unsigned long)(*p += 1.0); }
+void w_preinc_d64(_Atomic double *p, long n, unsigned long *log) { for (long i = 0; i < n; i++) log[i] = (unsigned long)++*p; }
+void w_postinc_d64(_Atomic double *p, long n, unsigned long *log) { for (long i = 0; i < n; i++) log[i] = (unsigned long)(*p)++; }
+void w_addassign_f32(_Atomic float *p, long n, unsigned long *log) { for (long i = 0; i < n; i++) log[i] = (unsigned long)(*p += 1); }
+void w_preinc_f32(_Atomic float *p, long n, unsigned long *log) { for (long i = 0; i < n; i++) log[i] = (unsigned long)++*p; }
+void w_postinc_f32(_Atomic float *p, long n, unsigned long *log) { for (long i = 0; i < n; i++) log[i] = (unsigned long)(*p)++; }
+
 // pointer variant: an atomic pointer object (pointer += n, pointer++); the families that are not defined for pointers reuse the 64-bit integer workers
 typedef unsigned char *bytep;
 void w_addassign_p64(_Atomic(bytep) *p, long n, unsigned long *log) { for (long i = 0; i < n; i++) log[i] = (unsigned long)(*p += 1); }
@@ -135,6 +143,8 @@ _Atomic signed char s_i8;
 _Atomic long s_i64;
 static struct BoxM s_box;
 static _Atomic(bytep) s_p64;
+static _Atomic double s_d64;
+static _Atomic float s_f32;
 void *static_object(int which) {
   switch (which) {
   case 0: return &s_u8;
@@ -144,6 +154,8 @@ void *static_object(int which) {
   case 4: return &s_i8;
   case 6: return &s_box.m;
   case 7: return &s_p64;
+  case 8: return &s_d64;
+  case 9: return &s_f32;
   default: return &s_i64;
   }
 }
@@ -156,6 +168,8 @@ void with_automatic(int which, void (*run)(void *obj, void *ctx), void *ctx) {
   switch (which) {
   case 6: run(&abox.m, ctx); break;
   case 7: run(&ap64, ctx); break;
+  case 8: { _Atomic double ad64 = 0; run(&ad64, ctx); break; }
+  case 9: { _Atomic float af32 = 0; run(&af32, ctx); break; }
   case 0: run(&a8, ctx); break;
   case 1: run(&a16, ctx); break;
   case 2: run(&a32, ctx); break;
